@@ -2,7 +2,7 @@
 Driver/Parse.lean — reader for the line protocol (DESIGN.md Appendix C). `partial` is confined to this
 directory; nothing here is used in a theorem.
 -/
-import InspectorModel
+import InspectorModel.ForDriver
 namespace Inspector.Driver
 open Inspector
 
